@@ -411,8 +411,8 @@ class ProvRecord(object):
                 attributes = attributes.items()
 
             # Check if one of the attributes specifies that the current type
-            # is a collection. In that case multiple attributes of the same
-            # type are allowed.
+            # is a collection. In that case multiple prov:entity attributes
+            # (the members) are allowed.
             if PROV_ATTR_COLLECTION in [_i[0] for _i in attributes]:
                 is_collection = True
             else:
@@ -450,7 +450,7 @@ class ProvRecord(object):
                     )
 
                 if (
-                    not is_collection
+                    not (is_collection and attr == PROV_ATTR_ENTITY)
                     and attr in PROV_ATTRIBUTES
                     and self._attributes[attr]
                 ):
